@@ -87,6 +87,10 @@ def _started_class(sim: M.Sim, n_obs: int, def_id: str, for_later: bool = False)
     p = eff_steps[n_obs - 1] if n_obs >= 1 else -1
     q = eff_steps[n_obs] if n_obs < len(eff_steps) else len(sim.steps)
     calls = [i for i, s in enumerate(sim.steps) if s["kind"] == "callmacro" and s.get("resolved") == def_id]
+    if q < len(sim.steps) and sim.steps[q]["watch"]:
+        # the next expected effect belongs to a Watch body: if that thread stalls (known finding: Block of a macro called inside
+        # a Block) the main thread goes on after its Wait and the number of observed effects no longer tells where it is
+        return "ambiguous"
     if any(i < p for i in calls):
         name = sim.def_name[def_id]
         later_defs = sim.defs[sim.defs.index(def_id) + 1:]
@@ -249,10 +253,13 @@ def run_case(case):
         i = 0
         while i < len(obs) and i < len(exp) and obs[i] == exp[i]:
             i += 1
-        if i == len(obs):
-            # the run stopped short: name what should have come next (kind, inside a macro body, inside an open Block)
-            es = [x for x in sim.steps if x["eff"] is not None]
-            nxt = es[i] if i < len(es) else None
+        es = [x for x in sim.steps if x["eff"] is not None]
+        nxt = es[i] if i < len(es) else None
+        stalled_in_watch = (i < len(obs) and nxt is not None and nxt["kind"] == "block" and nxt["stack"] and nxt["blocks"] and nxt["watch"])
+        if i == len(obs) or stalled_in_watch:
+            # the run stopped short: name what should have come next (kind, inside a macro body, inside an open Block).
+            # stalled_in_watch: the expected next effect is a Block of a macro called inside a Block in a Watch body; when that
+            # thread stalls there the main thread still goes on after its Wait, so later effects follow instead of nothing
             ctx = ""
             if nxt is not None:
                 ctx = ":next=%s%s%s" % (nxt["kind"], "-in-macro" if nxt["stack"] else "", "-inside-block" if nxt["blocks"] else "")
@@ -305,6 +312,11 @@ def run_case(case):
             if obs[:len(longest)] != longest:
                 what, i = divergence(longest)
                 viol(("trace:%s" if what.startswith("missing-effect") else "trace-before-undefined-call:%s") % what, "observed %r, expected prefix %r; %s" % (obs, longest, where))
+        elif (sim.cycle_via_interrupt or sim.cycle_in_watch) and len(obs) < len(accepted[0][0]) and accepted[0][0][:len(obs)] == obs:
+            # the run never got as far as the first call of the chain: an ordinary stall / error before it
+            what, i = divergence(accepted[0][0])
+            viol("trace:%s" % what, "effects before the recursive chain: observed %r, expected %r; state %s/%s error %r; %s"
+                 % (obs, accepted[0][0], state, status, str(err)[:160] if err else None, where))
         elif sim.cycle_via_interrupt:
             # the chain passes a Watch/Alarm inside a macro body.  The first accepted failure (the outermost call that can reach
             # itself) has a well-defined trace; a later one happens while interrupt body, macro body and main thread run side
